@@ -39,8 +39,8 @@ function checkSite (call) {
       else {
         const a = e0.arguments
         if (a.length >= 2 && a[1].type === 'ArrayExpression') {
-          if (a[1].elements.some(x => x === null)) problems.push({ kind: 'apply-hole', detail: 'array literal passed to apply has a hole' })
-          expected = [F, a[0], ...a[1].elements.filter(x => x !== null)]
+          // a hole is an undefined argument of the call: the hook must receive `undefined` in its place
+          expected = [F, a[0], ...a[1].elements.map(x => x === null ? { type: 'Identifier', name: 'undefined', __hole: true } : x)]
         } else expected = [F, ...a]
       }
     } else if (c.type === 'Identifier') expected = [c, { type: 'Identifier', name: 'undefined' }, ...e0.arguments]
@@ -57,6 +57,7 @@ function checkSite (call) {
       i++; j++; continue
     }
     if (x && isBarePlus(x)) { problems.push({ kind: 'bare-plus-operand-omitted', detail: 'an un-instrumented + expression is used as operand but not passed to the hook' }); i++; continue }
+    if (x && x.__hole) { problems.push({ kind: 'apply-hole', detail: 'the hole of the array literal passed to apply has no counterpart in the hook arguments' }); i++; continue }
     if (x && !y) { problems.push({ kind: 'operand-omitted', detail: x.type }); i++; continue }
     if (!x && y) { problems.push({ kind: 'extra-hook-argument', detail: y.type }); j++; continue }
     problems.push({ kind: 'operand-mismatch', detail: `position ${j}: operation uses ${x.type}${x.name ? ' ' + x.name : ''}, hook receives ${y.type}${y.name ? ' ' + y.name : ''}` })
